@@ -47,7 +47,7 @@ func run(c *mon.Case) {
 		// beginning 32 and more bytes into the read
 		win = 280
 		if base > 1<<63 {
-			base = 1<<64 - 400
+			base = 1<<64 - 600 // window + widest access stay below 2^64
 		}
 		c.Count("wide_window_histories", 1)
 	}
@@ -71,6 +71,9 @@ func run(c *mon.Case) {
 		occupied := map[uint64]bool{}
 		for i, n := 0, 1+r.Intn(5); i < n; i++ {
 			b := blk{begin: base + uint64(r.Intn(win)), bs: gen.ConstBytes(r, 1+r.Intn(8))}
+			if big && i < 2 { // large base blocks, so that wide reads can succeed
+				b.bs = gen.ConstBytes(r, 64+r.Intn(150))
+			}
 			clash := false
 			for j := range b.bs {
 				if occupied[b.begin+uint64(j)] {
@@ -115,6 +118,9 @@ func run(c *mon.Case) {
 		for i, n := 0, 1+r.Intn(6); i < n; i++ {
 			addr := base + uint64(r.Intn(win))
 			w := int(gen.SmallWidth(r))
+			if big && i < 2 {
+				w = 64 + r.Intn(150)
+			}
 			var ex expr.Expr = gen.Const(r, expr.Width(w))
 			if kind == "sparse-symbolic" && r.Intn(3) != 0 {
 				ex = g.Expr(2)
@@ -152,7 +158,11 @@ func run(c *mon.Case) {
 	if !k.Blocks() {
 		return
 	}
-	for op := 0; op < 30 && !c.Failed(); op++ {
+	nops := 30
+	if big {
+		nops = 70 // many small upper-layer values inside one wide read
+	}
+	for op := 0; op < nops && !c.Failed(); op++ {
 		switch x := r.Intn(100); {
 		case x < 45:
 			w := int(gen.SmallWidth(r))
